@@ -198,8 +198,21 @@ def run(ctx):
     # comment start
     sites = []
     sbody = body_of(S)
-    bool_assigns = [x for x in walk(sbody) if x.get('kind') == 'BinaryOperator' and x.get('opcode') == '=' and int_value(x['inner'][1]) == 1 and dtype(x['inner'][0]) == 'bool']
-    ctx.require(len(bool_assigns) >= 1, 'comment-start site not found in skip_whitespace_and_comments')
+    # the comment-start sites: whatever executes under a test of the current character against '/'
+    bool_assigns = []
+    for x in walk(sbody):
+        if x.get('kind') == 'IfStmt':
+            cond, then, els = if_parts(x)
+            slash = False
+            for n_, pol_ in atoms([Fact(cond, True, x)]):
+                r_ = relation(n_, pol_)
+                if r_ and r_[1] == '==' and (int_value(r_[2]) == 47 or int_value(r_[0]) == 47):
+                    slash = True
+            if slash and then is not None:
+                st_ = stmts_of(then)
+                if st_:
+                    bool_assigns.append(strip(st_[0]))
+    ctx.require(len(bool_assigns) >= 1, 'comment-start site (a statement under a test for \'/\') not found in skip_whitespace_and_comments')
     for i, a in enumerate(bool_assigns):
         ok = not reachable_under(a, make_assume(sflag['id'], {}))
         ctx.check(ok, R1, 'comment-start#%d' % i, a, '`//` starts a comment only when extensions are enabled', 'strict mode treats `//` as a comment: the comment state is entered with disable_extensions=true')
@@ -308,6 +321,25 @@ def run(ctx):
                     v = ref_decl(r[0])
                     if v and inc_s.get('kind') == 'UnaryOperator' and inc_s.get('opcode') == '--' and (ref_decl(inc_s['inner'][0]) or {}).get('id') == v['id'] and r[1] == '>' and int_value(r[2]) is not None:
                         countdown = v['id'] not in assigned_keys(lb)
+            if not countdown and lp.get('kind') in ('WhileStmt', 'ForStmt'):
+                # `while (v > c) { ...; v--; }`: the counter is stepped unconditionally once per turn
+                cond_ = while_parts(lp)[0] if lp.get('kind') == 'WhileStmt' else for_parts(lp)[2]
+                r = relation(cond_, True) if cond_ is not None and cond_.get('kind') else None
+                v = ref_decl(r[0]) if r else None
+                if v and v.get('kind') == 'VarDecl' and int_value(r[2]) is not None and lb.get('kind') == 'CompoundStmt':
+                    steps = []
+                    others = False
+                    for st_ in kids(lb):
+                        s0 = strip(st_)
+                        is_step = (s0.get('kind') == 'UnaryOperator' and s0.get('opcode') in ('--', '++') and (ref_decl(s0['inner'][0]) or {}).get('id') == v['id']) or \
+                                  (s0.get('kind') == 'CompoundAssignOperator' and s0.get('opcode') in ('-=', '+=') and (ref_decl(s0['inner'][0]) or {}).get('id') == v['id'] and (int_value(s0['inner'][1]) or 0) > 0)
+                        if is_step:
+                            steps.append(s0)
+                        elif v['id'] in assigned_keys(st_) or any(x.get('kind') == 'ContinueStmt' for x in walk(st_)):
+                            others = True
+                    if len(steps) == 1 and not others:
+                        down = steps[0].get('opcode') in ('--', '-=')
+                        countdown = (down and r[1] in ('>', '>=', '!=')) or ((not down) and r[1] in ('<', '<=', '!='))
             ok = cond_consumes or countdown or consumes(lb, f, u)
             ctx.check(ok, R, key, lp, 'each iteration consumes input / leaves the loop / counts down', 'a path through this loop body neither consumes input nor leaves the loop: the parser can spin forever on some input')
 
